@@ -2,6 +2,7 @@ import RedisVerif.Model.Conn
 import RedisVerif.Lemmas.Conn
 import RedisVerif.Lemmas.ConnWrite
 import RedisVerif.Lemmas.ConnSim
+import RedisVerif.Lemmas.ConnJunk
 
 /-
   C04 — pipelining: exactly one reply per command, in order, however the bytes arrive.
@@ -293,6 +294,43 @@ theorem malformed_keeps_earlier (cfg : Config) (h14 : cfg.headerLen = 14) (hc : 
   have : (execAll cmds).length = cmds.length := by simp [execAll]
   rw [← this, List.take_left']
   rfl
+
+theorem replyCount_execAll_append (cmds : List Cmd) (rest : List Action) :
+    replyCount (execAll cmds ++ rest) = cmds.length + replyCount rest := by
+  induction cmds with
+  | nil => simp [execAll]
+  | cons c cs ih =>
+    simp only [execAll, List.map_cons, List.cons_append, replyCount, List.length_cons] at ih ⊢
+    rw [ih]; omega
+
+/-- PART 2 (never silence), PARTIAL: a malformed frame that does NOT begin like an array (its first
+    byte is not `*` — so it is no member and no prefix of the look-alike class, whose members all
+    begin `*2\r\n$3\r\nGET` / `*3\r\n$3\r\nSET`) and that the decoder rejects (`parse1 junk` is a protocol
+    error: decidable) is answered with `-ERR protocol error` RIGHT AFTER the replies to the
+    well-formed commands before it — for every segmentation (the frame may share reads with the
+    commands, be cut anywhere, arrive byte by byte), every configuration.  With
+    `malformed_keeps_earlier` and `malformed_no_crash`: error reply, never silence, a hang or a crash,
+    earlier replies untouched.  (For frames beginning with `*` the statement is refuted by the
+    look-alikes: `malformed_is_error_counterexample`.) -/
+theorem malformed_gets_error_partial (cfg : Config) (h14 : cfg.headerLen = 14) (hc : cfg.codec = codec1)
+    (hd : 1 ≤ cfg.env.depth) (cmds : List Cmd) (junk : Bytes) (segs : List Bytes)
+    (h : segs.flatten = stream cmds ++ junk) (hstar : junk.head? ≠ some 42) (e : Err)
+    (hrej : (parse1 cfg.env junk).out = .error e)
+    (hs : Small (stream cmds ++ junk)) (hmax : (stream cmds ++ junk).length ≤ cfg.maxBuffer)
+    (hok : ∀ c ∈ cmds, CmdOK cfg c) :
+    (∃ tail, run cfg segs = execAll cmds ++ Action.protoErr :: tail) ∧ cmds.length + 1 ≤ replyCount (run cfg segs) := by
+  obtain ⟨tail, ht⟩ := run_junk_error cfg h14 hc hd cmds junk segs h hstar e hrej hs hmax hok
+  refine ⟨⟨tail, ht⟩, ?_⟩
+  rw [ht, replyCount_execAll_append]
+  simp only [replyCount]
+  omega
+
+/-- non-vacuity: `?x\r\n`, `$-2\r\n`, `:x\r\n` satisfy the hypotheses; cut inside the last command and
+    byte by byte through the malformed frame, PING and GET are answered, then the protocol error -/
+example : ([63, 120, 13, 10] : Bytes).head? ≠ some 42 ∧ (parse1 cfg14.env [63, 120, 13, 10]).out.errKind = some .unknownType ∧
+    (parse1 cfg14.env [36, 45, 50, 13, 10]).out.errKind = some .badLen ∧ (parse1 cfg14.env [58, 120, 13, 10]).out.errKind = some .badInt ∧
+    replyCount (run cfg14 ([(stream [cmdPing, cmdGetK]).take 20, (stream [cmdPing, cmdGetK]).drop 20 ++ [36]] ++
+      [[45], [50], [13], [10]])) = 3 := by decide
 
 /-- the frames that crashed the pinned code get a protocol error now, after the reply to PING -/
 example : hasCrash (run cfg14 [stream [cmdPing] ++ getHugeLen.take 20, getHugeLen.drop 20]) = false ∧
